@@ -8,6 +8,7 @@ import (
 	"sort"
 	"strings"
 	"sync"
+	"sync/atomic"
 	"time"
 
 	"golang.org/x/tools/go/ssa"
@@ -33,47 +34,49 @@ type RunConfig struct {
 	MaxViolations   int
 	CrossCheck      []smt.OneShot // thorough: re-discharge assertion queries
 	CrossTimeout    time.Duration
+	CrossMax        int64 // at most this many assertion queries are cross-checked per instance (0: 300)
+	crossUsed       *int64
 	Trace           bool
 	// Solver selects a one-shot back end for every query of this run:
 	// "" (incremental z3), "cvc5-int", "cvc5", "z3-new".
-	Solver          string
+	Solver string
 }
 
 // PathOutcome summarises one completed path.
 type PathOutcome struct {
-	Kind  string // ok | panic | blocked | fatal | unsupported | budget | infeasible | engine-error | stop
-	Msg   string
-	Decs  int
-	Steps int
+	Kind   string // ok | panic | blocked | fatal | unsupported | budget | infeasible | engine-error | stop
+	Msg    string
+	Decs   int
+	Steps  int
 	Covers []string // RunConcrete: cover labels reached
 }
 
 // RunResult aggregates an exploration.
 type RunResult struct {
-	Harness      string            `json:"harness"`
-	Args         []int             `json:"args"`
-	Paths        int               `json:"paths"`
-	Outcomes     map[string]int    `json:"outcomes"`
-	Violations   []Violation       `json:"violations,omitempty"`
-	Covers       map[string]Model  `json:"covers,omitempty"`
-	Asserts      map[string]int    `json:"asserts"`
-	Inconclusive []string          `json:"inconclusive,omitempty"`
-	Queries      int               `json:"queries"`
-	AssertQ      int               `json:"assert_queries"`
-	SolverTime   float64           `json:"solver_time_s"`
-	ModelTime    float64           `json:"model_time_s"`
-	Wall         float64           `json:"wall_s"`
-	Steps        int64             `json:"steps"`
-	Functions    []string          `json:"functions,omitempty"`
-	StubCalls    map[string]int    `json:"stub_calls,omitempty"`
-	KnownSeen    []string          `json:"known_seen,omitempty"`
-	Cuts         map[string]int    `json:"cuts,omitempty"`
-	Fallbacks    int               `json:"fallback_queries,omitempty"`
-	CrossChecked int               `json:"cross_checked,omitempty"`
-	CrossUnknown int               `json:"cross_unknown,omitempty"`
-	CrossDisagree []string         `json:"cross_disagree,omitempty"`
-	Truncated    bool              `json:"truncated,omitempty"`
-	UncaughtPanics []Violation     `json:"uncaught_panics,omitempty"`
+	Harness        string           `json:"harness"`
+	Args           []int            `json:"args"`
+	Paths          int              `json:"paths"`
+	Outcomes       map[string]int   `json:"outcomes"`
+	Violations     []Violation      `json:"violations,omitempty"`
+	Covers         map[string]Model `json:"covers,omitempty"`
+	Asserts        map[string]int   `json:"asserts"`
+	Inconclusive   []string         `json:"inconclusive,omitempty"`
+	Queries        int              `json:"queries"`
+	AssertQ        int              `json:"assert_queries"`
+	SolverTime     float64          `json:"solver_time_s"`
+	ModelTime      float64          `json:"model_time_s"`
+	Wall           float64          `json:"wall_s"`
+	Steps          int64            `json:"steps"`
+	Functions      []string         `json:"functions,omitempty"`
+	StubCalls      map[string]int   `json:"stub_calls,omitempty"`
+	KnownSeen      []string         `json:"known_seen,omitempty"`
+	Cuts           map[string]int   `json:"cuts,omitempty"`
+	Fallbacks      int              `json:"fallback_queries,omitempty"`
+	CrossChecked   int              `json:"cross_checked,omitempty"`
+	CrossUnknown   int              `json:"cross_unknown,omitempty"`
+	CrossDisagree  []string         `json:"cross_disagree,omitempty"`
+	Truncated      bool             `json:"truncated,omitempty"`
+	UncaughtPanics []Violation      `json:"uncaught_panics,omitempty"`
 }
 
 // NewInterp creates a worker and runs package initialisers.
@@ -172,22 +175,22 @@ func (in *Interp) panicString(fr *frame, v value) string {
 // runPath executes one path of the harness.
 func (in *Interp) runPath(h *Harness, cfg *RunConfig, item *WorkItem, res *pathResult) {
 	p := &pathState{
-		prefix:   item.Prefix,
-		item:     item,
-		maxSteps: cfg.MaxSteps,
-		maxDecs:  cfg.MaxDecs,
-		maxConc:  cfg.MaxConc,
-		covers:   map[string]Model{},
-		asserts:  map[string]int{},
-		varCtr:   map[string]int{},
-		ghost:    map[string]value{},
-		known:    cfg.Known,
-		knownSeen: map[string]bool{},
-		cuts:     map[string]int{},
-		pcVars:   map[*term.Term]bool{},
-		stubCalls: map[string]int{},
+		prefix:          item.Prefix,
+		item:            item,
+		maxSteps:        cfg.MaxSteps,
+		maxDecs:         cfg.MaxDecs,
+		maxConc:         cfg.MaxConc,
+		covers:          map[string]Model{},
+		asserts:         map[string]int{},
+		varCtr:          map[string]int{},
+		ghost:           map[string]value{},
+		known:           cfg.Known,
+		knownSeen:       map[string]bool{},
+		cuts:            map[string]int{},
+		pcVars:          map[*term.Term]bool{},
+		stubCalls:       map[string]int{},
 		stopOnViolation: cfg.StopOnViolation,
-		harness:  h,
+		harness:         h,
 	}
 	if len(h.stubMap) > 0 {
 		p.stubs = h.stubMap
@@ -211,6 +214,9 @@ func (in *Interp) runPath(h *Harness, cfg *RunConfig, item *WorkItem, res *pathR
 	}
 	if len(cfg.CrossCheck) > 0 {
 		p.queryHook = func(label string, pc []T, neg T, r smt.Result) {
+			if cfg.crossUsed != nil && atomic.AddInt64(cfg.crossUsed, 1) > cfg.CrossMax {
+				return
+			}
 			asserts := append(append([]T(nil), pc...), neg)
 			for _, o := range cfg.CrossCheck {
 				r2, _, out, _ := o.Solve(asserts, nil, cfg.CrossTimeout)
@@ -322,6 +328,10 @@ func Explore(prog *Program, pool *Pool, cfg RunConfig) (*RunResult, error) {
 	if cfg.MaxViolations == 0 {
 		cfg.MaxViolations = 50
 	}
+	if cfg.CrossMax == 0 {
+		cfg.CrossMax = 300
+	}
+	cfg.crossUsed = new(int64)
 	start := time.Now()
 	res := &RunResult{Harness: cfg.Harness, Args: cfg.Args, Outcomes: map[string]int{}, Covers: map[string]Model{},
 		Asserts: map[string]int{}, StubCalls: map[string]int{}}
